@@ -7,6 +7,7 @@ import (
 	"crypto/tls"
 	"crypto/x509"
 	"crypto/x509/pkix"
+	"embed"
 	"encoding/pem"
 	"math/big"
 	"net"
@@ -39,9 +40,49 @@ func mkCert(tmpl, parent *x509.Certificate, pub *ecdsa.PublicKey, signer *ecdsa.
 	return der
 }
 
-// NewTLSMaterial generates the PKI and points SSL_CERT_FILE/SSL_CERT_DIR at it. Call once per
-// process, outside any bubble and before the first TLS handshake.
+//go:embed pki/*
+var pkiFS embed.FS
+
+// NewTLSMaterial loads the simulator's PKI and points SSL_CERT_FILE/SSL_CERT_DIR at its CA.
+// The PKI is a fixed set of files (pki/, generated once with GenerateTLSMaterial): keys and
+// certificates that differ from process to process would make byte counts, and with them run
+// digests, differ between a run and its replay. Call once per process, outside any bubble and
+// before the first TLS handshake.
 func NewTLSMaterial(dir string) *TLSMaterial {
+	rd := func(n string) []byte {
+		b, err := pkiFS.ReadFile("pki/" + n)
+		if err != nil {
+			panic(err)
+		}
+		return b
+	}
+	pair := func(n string) tls.Certificate {
+		c, err := tls.X509KeyPair(rd(n+".crt"), rd(n+".key"))
+		if err != nil {
+			panic(err)
+		}
+		return c
+	}
+	m := &TLSMaterial{CAPEM: rd("ca.pem"), Valid: pair("valid"), WrongName: pair("wrongname"), Untrusted: pair("untrusted"), Pool: x509.NewCertPool(), Dir: dir}
+	m.Pool.AppendCertsFromPEM(m.CAPEM)
+	m.export(dir)
+	return m
+}
+
+func (m *TLSMaterial) export(dir string) {
+	if dir != "" {
+		_ = os.MkdirAll(filepath.Join(dir, "empty"), 0o755)
+		f := filepath.Join(dir, "simca.pem")
+		if err := os.WriteFile(f, m.CAPEM, 0o644); err != nil {
+			panic(err)
+		}
+		os.Setenv("SSL_CERT_FILE", f)
+		os.Setenv("SSL_CERT_DIR", filepath.Join(dir, "empty"))
+	}
+}
+
+// GenerateTLSMaterial creates a fresh PKI (used once to produce the files under pki/).
+func GenerateTLSMaterial(dir string) *TLSMaterial {
 	nb := time.Date(1999, 1, 1, 0, 0, 0, 0, time.UTC)
 	na := time.Date(2099, 1, 1, 0, 0, 0, 0, time.UTC)
 	newCA := func(cn string, serial int64) (*x509.Certificate, *ecdsa.PrivateKey, []byte) {
